@@ -24,5 +24,8 @@ NegInf == <<255, 4194303, 4194303>>
 PosInf == <<1048320, 0, 0>>
 IsFinite(a) == ~IsNaN(a) /\ RawLt(NegInf, a) /\ RawLt(a, PosInf)
 \* index of a maximal element of a non-empty sequence without NaN
-ArgMax(s) == CHOOSE p \in DOMAIN s : \A q \in DOMAIN s : Le(s[q], s[p])
+\* (linear scan; the CHOOSE form is quadratic and libraries have thousands of rows)
+RECURSIVE ArgMaxFrom(_, _, _)
+ArgMaxFrom(s, k, best) == IF k > Len(s) THEN best ELSE ArgMaxFrom(s, k + 1, IF RawLt(s[best], s[k]) THEN k ELSE best)
+ArgMax(s) == ArgMaxFrom(s, 2, 1)
 =============================================================================
